@@ -67,6 +67,8 @@ pub fn try_encode(mode: &str, p: &Packet) -> Result<Vec<u8>, String> {
 pub struct Pool {
     pub mode: String,
     pub by_len: BTreeMap<usize, Vec<Vec<u8>>>,
+    /// the typed packets the frames were encoded from (same order): user writes are built from these, not by decoding
+    pub pk_by_len: BTreeMap<usize, Vec<Packet>>,
 }
 
 impl Pool {
@@ -77,6 +79,7 @@ impl Pool {
 
     pub fn new(mode: &str) -> Self {
         let mut by_len: BTreeMap<usize, Vec<Vec<u8>>> = BTreeMap::new();
+        let mut pk_by_len: BTreeMap<usize, Vec<Packet>> = BTreeMap::new();
         // one default packet of every kind, plus multi-car packets of 256, 508 and 1012 bytes (compressed mode only)
         let mut all = crate::abs::default_packets();
         for cars in [9usize, 18, 36] {
@@ -100,10 +103,22 @@ impl Pool {
                 }
                 f[2] = 1; // request id 1: never a keep-alive
                 // (not filtered by what the decoder under test makes of them: the encoder built them from typed packets)
+                pk_by_len.entry(f.len()).or_default().push(p.clone());
                 by_len.entry(f.len()).or_default().push(f);
             }
         }
-        Pool { mode: mode.to_string(), by_len }
+        Pool { mode: mode.to_string(), by_len, pk_by_len }
+    }
+
+    /// a typed packet whose frame has this length, with its encoding (request id chosen like `frame` does)
+    pub fn typed(&self, len: usize, c: usize) -> Option<(Packet, Vec<u8>)> {
+        use insim::WithRequestId;
+        let v = self.pk_by_len.get(&len)?;
+        let p = v[c % v.len()].clone();
+        let reqi = ((c / v.len()) % 255 + 1) as u8;
+        let p: Packet = p.with_request_id(reqi).into();
+        let enc = try_encode(&self.mode, &p).ok()?;
+        Some((p, enc))
     }
 
     pub fn keepalive(&self) -> Vec<u8> {
